@@ -298,6 +298,13 @@ def verify_targets(targets, repo, tier='quick', property_id=None, native=True):
     results = discharge(all_obs, use_cache=(tier != 'thorough'))
     from . import monitor
     witnesses = {}
+    if native:
+        try:
+            # callees under contract are wrapped too: a call outside their precondition from a function whose own precondition
+            # holds is reported as a violation of that function's call-pre obligation
+            monitor.install_all()
+        except Exception:  # noqa
+            pass
     for inf in infos:
         con = C.lookup(inf['target'], inf['variant'])
         if con is not None and inf['status'] in ('ok', 'stale', 'out-of-subset') and native:
@@ -370,6 +377,9 @@ def verify_targets(targets, repo, tier='quick', property_id=None, native=True):
             else:
                 report['undecided'] += 1
                 report['undecided_list'].append({'obligation': ob.name, 'reason': res['reason'][:200]})
+        _c = C.lookup(inf['target'], inf['variant'])
+        if _c is not None and getattr(_c, 'native_ensures', None):
+            f['clauses_checked_at_run_time_only'] = len(_c.native_ensures)     # never counted as proved
         report['functions'].append(f)
     # native cross-check: the same contract text evaluated on the real code over the concrete examples
     cc = {'examples': 0, 'precondition_true': 0, 'native_violations': 0}
